@@ -542,7 +542,14 @@ func (s *LinearState) remHooks(ctx *Context) error {
 		s.withPrivilege(ctx)
 		defer s.withoutPrivilege(ctx)
 		for id := range s.Facts {
-			if err := s.remHook(ctx, s, id); err != nil {
+			err := s.remHook(ctx, s, id)
+			if _, gone := err.(*NotFoundError); gone {
+				// The fact had expired, and the hook's look at
+				// it removed it.  Nothing to tell the hook then,
+				// and no reason not to clear the rest.
+				continue
+			}
+			if err != nil {
 				Log(ERROR, ctx, "LinearState.Clear", "state", s.Name, "error", err,
 					"id", id, "when", "remHook")
 				return err
